@@ -166,7 +166,7 @@ Fixpoint balanced (depth : nat) (s : string) : bool :=
 Definition expr_char_ok (c : ascii) : bool :=
   negb (mem_ascii c ["\"; " "; "'"; """"; "["; "]"]%char).
 Definition wf_expr (e : string) : bool :=
-  balanced 0 e && all_chars expr_char_ok e && first_not_in ["&"%char] e.
+  nonempty e && balanced 0 e && all_chars expr_char_ok e && first_not_in ["&"%char] e.
 
 (* after a collector the parser is looking for a collector operator *)
 Definition after_coll_bad : list ascii := ["+"; "-"; "&"]%char.
